@@ -7,6 +7,9 @@ package ramfs
 
 //@ macro NOLOCK(x) = (lockcount() == 0 && !held(x))
 
+// every child pointer stored in a directory's map is a node (tree well-formedness, maintained by link_child)
+//@ macro TREE = (forall n *FileEnt, k string :: {n.children[k]} n != nil && n.children != nil && has(n.children, k) ==> n.children[k] != nil)
+
 //@ func (*FileEnt).Read
 //@ property C18
 //@ nolockledger
@@ -33,6 +36,7 @@ package ramfs
 //@ property C18
 //@ nolockledger
 //@ requires f != nil
+//@ ensures tree: old(TREE) ==> TREE
 //@ ensures missing: f.children == nil || !old(has(f.children, name)) || old(f.children[name]) != c ==> err != nil && (forall k string :: {has(f.children, k)} has(f.children, k) == old(has(f.children, k)) && f.children[k] == old(f.children[k]))
 //@ ensures removed: f.children != nil && old(has(f.children, name)) && old(f.children[name]) == c ==> err == nil && !has(f.children, name) && (forall k string :: {has(f.children, k)} k != name ==> has(f.children, k) == old(has(f.children, k)) && f.children[k] == old(f.children[k]))
 
@@ -40,6 +44,7 @@ package ramfs
 //@ property C18
 //@ nolockledger
 //@ requires f != nil
+//@ ensures tree: old(TREE) && c != nil ==> TREE
 //@ ensures refused: f.children == nil || old(has(f.children, name)) ==> err != nil && (forall k string :: {has(f.children, k)} has(f.children, k) == old(has(f.children, k)) && f.children[k] == old(f.children[k]))
 //@ ensures linked: f.children != nil && !old(has(f.children, name)) ==> err == nil && has(f.children, name) && f.children[name] == c && (forall k string :: {has(f.children, k)} k != name ==> has(f.children, k) == old(has(f.children, k)) && f.children[k] == old(f.children[k]))
 
@@ -54,31 +59,34 @@ package ramfs
 //@ ensures len(result) <= len(lst) && forall(j, 0, len(result), result[j] != x)
 //@ loop 1 invariant 0 <= i && i <= j && j <= len(lst) && forall(m, 0, i, lst[m] != x)
 
+
+// decref: verified modularly (the recursive calls are replaced by this contract); every child pointer is a node, so the
+// cascade never dereferences nil. Termination of the cascade (the tree is acyclic) is NOT proved.
 //@ func (*FileEnt).decref
 //@ property C18
-//@ trusted
+//@ nolockledger
 //@ modifies ramfs.FileEnt.nref, ramfs.FileEnt.children, held
-//@ requires f != nil
+//@ requires f != nil && TREE
+//@ ensures TREE
+//@ loop 1 invariant f != nil && TREE
 
 //@ macro HOK = (h.ent != nil && forall(j, 0, len(h.parents), h.parents[j] != nil))
 
 //@ func (FileHandle).Clunk
 //@ property C18
 //@ nolockledger
-//@ requires HOK
-//@ loop 1 invariant HOK
+//@ requires HOK && TREE
+//@ loop 1 invariant HOK && TREE
 
 //@ func (FileHandle).Remove
 //@ property C18
 //@ nolockledger
-//@ requires HOK
+//@ requires HOK && TREE
 //@ let P = old(h.parents[len(h.parents) - 1])
 //@ let NAME = old(h.ent.Info.Name)
 //@ ensures root: len(h.parents) == 0 ==> err != nil
 //@ ensures removes_own_link_only: len(h.parents) > 0 && old(P.children) != nil && old(has(P.children, NAME)) && old(P.children[NAME]) != h.ent ==> has(old(P.children), NAME) && old(P.children)[NAME] == old(P.children[NAME])
 
-// every child pointer stored in a directory's map is a node (tree well-formedness, maintained by link_child)
-//@ macro TREE = (forall n *FileEnt, k string :: {n.children[k]} n != nil && n.children != nil && has(n.children, k) ==> n.children[k] != nil)
 
 //@ func (*FileEnt).Walk
 //@ property C18
